@@ -37,6 +37,12 @@ CHECKS.update({
    text="All six iteration orders, successor/predecessor inverse clauses for a symbolic start node, and tear-down interrupted at a symbolic point, on every AVL shape of height <= 3 (4) and every red-black tree with <= 7 (9) nodes; each torn-down node object is freed at once so any later access is a use-after-free finding.",
    note=E2NOTE + " Shapes are enumerated (bounded); the solver decides start node, interruption point and key-order clauses."),
 })
+CHECKS.update({
+ "C04": dict(engine="llsym", cat="model_checking", design="4/C04",
+   technique="symbolic execution of src/vec.c, src/buf.c, src/a.c IR (llsym + z3) from constructed container states with symbolic payload bytes and symbolic 64-bit indices/counts, against an abstract sequence model",
+   text="Every mutator and accessor of the vector and the fixed buffer (except the qsort/bsearch pass-throughs) from constructed states (element sizes 1,3 quick / 1,2,3,8 thorough; capacity <= 3 / 4; spare-slot and exactly-full states; symbolic payload), one operation (thorough: also pairs) with symbolic arguments where every out-of-range index/count is a single symbolic 64-bit value (so SIZE_MAX and wrapping sums are models the solver must find); every memory access checked against owned objects.",
+   note=E2NOTE + " Allocation never fails in this check (C07 covers failure)."),
+})
 NOT_YET = {}
 
 def main():
